@@ -30,6 +30,8 @@ var (
 	fOut     = flag.String("out", "", "worker scratch directory")
 	fReplay  = flag.String("replay", "", "replay file")
 	fResume  = flag.String("resume", "", "class#index to resume after")
+	fFrom    = flag.String("from", "", "class#index to start at (what a checkpoint covers up to)")
+	fSkip    = flag.String("skip", "", "comma-separated class#index of cases not to run again")
 	fRace    = flag.Bool("race", false, "this binary was built with -race")
 	fRaceBin = flag.String("racebin", "", "path of the -race build of this binary")
 	fVerif   = flag.String("verif", "/verif", "verif root")
@@ -69,6 +71,17 @@ func main() {
 	}
 	cfg := mon.Config{Prop: p.ID, Tier: *fTier, Seed: seed, Shard: *fShard, NShards: *fNShards, OutDir: *fOut, Race: *fRace}
 	if *fWorker {
+		if *fFrom != "" {
+			i := strings.LastIndex(*fFrom, "#")
+			cfg.FromClass = (*fFrom)[:i]
+			cfg.FromIndex, _ = strconv.Atoi((*fFrom)[i+1:])
+		}
+		if *fSkip != "" {
+			cfg.Skip = map[string]bool{}
+			for _, s := range strings.Split(*fSkip, ",") {
+				cfg.Skip[s] = true
+			}
+		}
 		if *fResume != "" {
 			i := strings.LastIndex(*fResume, "#")
 			cfg.ResumeClass = (*fResume)[:i]
@@ -121,16 +134,25 @@ type shardRun struct {
 
 func runShard(p *props.Prop, cfg mon.Config, bin, dir string, shard int, fatalIsViolation bool) shardRun {
 	var sr shardRun
-	resume := ""
+	resume, from := "", ""
+	var skips []string
 	var partial []*mon.Result
+	ckptPath := filepath.Join(dir, fmt.Sprintf("shard-%d.ckpt", shard))
 	for attempt := 0; attempt < 40; attempt++ {
 		os.Remove(filepath.Join(dir, fmt.Sprintf("shard-%d.json", shard)))
+		os.Remove(ckptPath)
 		args := []string{"-worker", "-prop", cfg.Prop, "-tier", cfg.Tier, "-seed", fmt.Sprint(cfg.Seed), "-shard", fmt.Sprint(shard), "-nshards", fmt.Sprint(cfg.NShards), "-out", dir}
 		if cfg.Race {
 			args = append(args, "-race")
 		}
 		if resume != "" {
 			args = append(args, "-resume", resume)
+		}
+		if from != "" {
+			args = append(args, "-from", from)
+		}
+		if len(skips) > 0 {
+			args = append(args, "-skip", strings.Join(skips, ","))
 		}
 		cmd := exec.Command(bin, args...)
 		errPath := filepath.Join(dir, fmt.Sprintf("shard-%d.stderr.%d", shard, attempt))
@@ -192,7 +214,23 @@ func runShard(p *props.Prop, cfg mon.Config, bin, dir string, shard int, fatalIs
 			// the case is inconclusive (harness or library died there); the shard resumes after it
 			sr.deadCases = append(sr.deadCases, fmt.Sprintf("shard %d died in case %s: %v :: %s", shard, last, werr, firstLine(tail)))
 		}
-		resume = class + "#" + strconv.Itoa(idx)
+		// what the dead worker had observed up to its last checkpoint is kept; the next attempt starts at the case the
+		// checkpoint stops before and leaves out the cases workers died in. Without a checkpoint it resumes after the
+		// dead case as before (the cases before it are then lost for this shard).
+		skips = append(skips, class+"#"+strconv.Itoa(idx))
+		if b, err := os.ReadFile(ckptPath); err == nil {
+			var r mon.Result
+			if json.Unmarshal(b, &r) == nil && r.NextClass != "" {
+				next := r.NextClass + "#" + strconv.Itoa(r.NextIndex)
+				r.NextClass, r.NextIndex, r.Done = "", 0, true
+				partial = append(partial, &r)
+				resume, from = "", next
+				continue
+			}
+		}
+		if from == "" {
+			resume = class + "#" + strconv.Itoa(idx)
+		}
 	}
 	sr.res = mon.Merge(partial)
 	return sr
